@@ -44,6 +44,15 @@ channel.receive()             # 'sent': the initiator has sent its items on the 
 channel.gateway.execmodel.sleep(0.5)
 channel.send(got)
 """
+W_SUBCHANNEL_DROPPED = """
+channel.gateway.execmodel.sleep(0.3)      # the initiator sets a callback and drops its channel object meanwhile
+sub = channel.gateway.newchannel()
+channel.send(sub)
+for x in %(items)r:
+    sub.send(x)
+sub.close()
+channel.gateway.execmodel.sleep(0.3)
+"""
 W_CONSUME = """
 got = []
 for i in range(%(n)d):
@@ -129,7 +138,7 @@ def gen_conversation(rng, kinds, tag):
     c = {"kind": kind, "tag": tag}
     if kind in ("produce", "produce_raise"):
         c["items"] = gen_items(rng)
-        c["consume"] = rng.choice(["receive", "iter", "callback", "callback_late", "callback_mid", "two_receivers", "waitclose_then_receive"] + (["callback_dropped"] if kind == "produce" else []))
+        c["consume"] = rng.choice(["receive", "iter", "iter_and_receiver", "callback", "callback_late", "callback_mid", "callback_end_raises", "two_receivers", "waitclose_then_receive"] + (["callback_dropped"] if kind == "produce" else []))
     elif kind == "consume":
         c["items"] = gen_items(rng)
     elif kind == "consume_eof":
@@ -139,6 +148,8 @@ def gen_conversation(rng, kinds, tag):
         c["items"] = list(range(rng.randint(1, 4)))
         c["bad"] = rng.choice(c["items"])
         c["keep"] = rng.choice([0, 1])
+    elif kind == "subchannel_dropped":
+        c["items"] = gen_items(rng, rng.randint(0, 3), big=False)
     elif kind == "halfclose":
         c["items"] = gen_items(rng, rng.randint(0, 3), big=False)
     elif kind == "subchannel":
@@ -168,6 +179,8 @@ def worker_source(c):
         return W_CONSUME_UNTIL_EOF % {"tag": c["tag"]}
     if k == "callback_raises":
         return W_CALLBACK_RAISES % {"tag": c["tag"], "bad": c["bad"], "keep": c["keep"]}
+    if k == "subchannel_dropped":
+        return W_SUBCHANNEL_DROPPED % {"items": c["items"]}
     if k == "halfclose":
         return W_HALFCLOSE
     if k == "subchannel":
@@ -221,10 +234,35 @@ def run_program(prog, chooser, seed, line_budget=0, cut_w2i=None, remote_backend
             if mode in ("receive", "two_receivers", "waitclose_then_receive"):
                 while 1:
                     o["got"].append(ch.receive(timeout=20))
+            elif mode == "iter_and_receiver":
+                for x in ch:
+                    o["got"].append(x)
+                o["end"] = "EOFError"
             elif mode == "iter":
                 for x in ch:
                     o["got"].append(x)
                 o["end"] = "EOFError"
+            elif mode == "callback_end_raises":
+                END = ("END",)
+
+                def cb(x):
+                    o["got"].append(x)
+                    if x == END:
+                        raise RuntimeError("callback fails on its endmarker")
+
+                try:
+                    ch.setcallback(cb, endmarker=END)
+                except RuntimeError:
+                    o["raised_in_caller"] = True   # the channel was closed already: setcallback itself delivers the endmarker
+                try:
+                    ch.waitclose(timeout=20)
+                    o["end"] = "closed"
+                except RemoteError as e:
+                    o["end"] = "RemoteError"
+                    o["errtext"] = str(e)
+                except EOFError:
+                    o["end"] = "EOFError"
+                return
             elif mode == "callback_dropped":
                 END = ("END",)
                 ch.setcallback(lambda x: o["got"].append(x), endmarker=END)
@@ -289,7 +327,7 @@ def run_program(prog, chooser, seed, line_budget=0, cut_w2i=None, remote_backend
         o["id"] = ch.id
         k = c["kind"]
         if k in ("produce", "produce_raise"):
-            if c["consume"] == "two_receivers":
+            if c["consume"] in ("two_receivers", "iter_and_receiver"):
                 o2 = obs["%d:second" % i] = {"kind": "second"}
                 sc.spawn(second_receiver, (ch, o2), name=f"second{i}")
             if consume(c, ch, o) == "drop":
@@ -367,6 +405,22 @@ def run_program(prog, chooser, seed, line_budget=0, cut_w2i=None, remote_backend
                 o["outer"] = "closed"
             except Exception as e:  # noqa
                 o["outer"] = type(e).__name__
+        elif k == "subchannel_dropped":
+            box = []
+            ch.setcallback(box.append, endmarker=("END",))
+            del ch                                       # only the callback registration remains
+            pr.em_i.sleep(1.5)
+            o["carrier_got"] = [type(x).__name__ if type(x).__name__ == "Channel" else x for x in box]
+            subs = [x for x in box if type(x).__name__ == "Channel"]
+            o["got"] = []
+            if subs:
+                try:
+                    while 1:
+                        o["got"].append(subs[0].receive(timeout=20))
+                except EOFError:
+                    o["end"] = "EOFError"
+                except Exception as e:  # noqa
+                    o["end"] = type(e).__name__
         elif k == "halfclose":
             try:
                 sub = ch.receive(timeout=20)
@@ -504,6 +558,13 @@ def check_conversation(ck, prefix, c, o, out, ex, lossy=False):
                 ck.fail(prefix + "remote-error-not-delivered-exactly-once:" + str(ends), ex)
             return
         mode = c["consume"]
+        if mode == "callback_end_raises":
+            END = ("END",)
+            if list(map(canon_item, [x for x in got if x != END])) != list(map(canon_item, want)) or got.count(END) != 1:
+                ck.fail(prefix + "callback-items-differ:callback_end_raises", ex)
+            if o.get("end") not in ("closed", "RemoteError"):
+                ck.fail(prefix + "callback-error-on-endmarker-disturbs-the-channel:" + str(o.get("end")), ex)
+            return
         if mode == "callback_dropped":
             END = ("END",)
             items = [x for x in got if x != END]
@@ -529,9 +590,10 @@ def check_conversation(ck, prefix, c, o, out, ex, lossy=False):
         if k == "produce":
             if mode == "waitclose_then_receive" and o.get("waitclose") != "returns":
                 ck.fail(prefix + "waitclose-raised-without-error", ex)
-            if o.get("end") != "EOFError" or (mode != "iter" and o.get("after") != "EOFError"):
+            if o.get("end") != "EOFError" or o.get("after") != "EOFError":
+                # also after iterating to the end: the ENDMARKER must still be there for every later receive
                 ck.fail(prefix + f"no-repeated-EOFError-after-close:{mode}:{o.get('end')}:{o.get('after')}", ex)
-            if mode != "iter" and o.get("waitclose_after") != "returns":
+            if o.get("waitclose_after") != "returns":
                 ck.fail(prefix + "waitclose-after-close-does-not-return:" + str(o.get("waitclose_after")), ex)
         else:
             # the error exactly once (receive or the earlier waitclose), after all items, then EOFError
@@ -561,6 +623,8 @@ def check_conversation(ck, prefix, c, o, out, ex, lossy=False):
             ck.fail(prefix + "callback-did-not-see-items-in-order", ex)
         if o.get("outer") != "closed":
             ck.fail(prefix + "callback-error-disturbed-other-channel:" + str(o.get("outer")), ex)
+        if not c["keep"] and o.get("end") != "RemoteError":
+            ck.fail(prefix + "callback-error-not-reported-to-peer-in-send-only-state:" + str(o.get("end")), ex)
         if c["keep"]:
             if o.get("end") != "RemoteError" or "KeyError" not in o.get("errtext", "") or "cb-boom" not in o.get("errtext", ""):
                 ck.fail(prefix + f"callback-error-not-reported-to-peer:{o.get('end')}", ex)
@@ -569,6 +633,12 @@ def check_conversation(ck, prefix, c, o, out, ex, lossy=False):
             own = [n[2] for n in out["worker_notes"] if n[0] == c["tag"] and n[1] == "own"]
             if own != ["RemoteError"]:
                 ck.fail(prefix + "callback-error-failing-side-not-closed-with-RemoteError:" + str(own), ex)
+    elif k == "subchannel_dropped":
+        cg = o.get("carrier_got") or []
+        if cg[:1] != ["Channel"] or cg[-1:] not in ([("END",)], [["END"]]):
+            ck.fail(prefix + "channel-over-dropped-carrier-does-not-arrive:" + repr(cg)[:60], ex)
+        elif list(map(canon_item, o.get("got", []))) != list(map(canon_item, c["items"])) or o.get("end") != "EOFError":
+            ck.fail(prefix + "channel-over-channel-cross-connected-or-lossy", ex)
     elif k == "halfclose":
         if o.get("end") != "closed":
             ck.fail(prefix + "halfclose-conversation-failed:" + str(o.get("end")), ex)
@@ -587,7 +657,7 @@ def check_conversation(ck, prefix, c, o, out, ex, lossy=False):
             ck.fail(prefix + "channel-id-parity-wrong", ex)
 
 
-ALL_KINDS = ["produce", "produce_raise", "consume", "consume_eof", "callback_raises", "subchannel", "halfclose"]
+ALL_KINDS = ["produce", "produce_raise", "consume", "consume_eof", "callback_raises", "subchannel", "halfclose", "subchannel_dropped"]
 
 
 def run_property(prop, tier, seed, replay, kinds_weight, prefix_filter, rule, assumptions, nprog_quick=140, extra=None):
@@ -632,10 +702,31 @@ def run_property(prop, tier, seed, replay, kinds_weight, prefix_filter, rule, as
                     c["consume"] = rng.choice(["two_receivers", "two_receivers", "callback_mid", "callback_late", "receive", "waitclose_then_receive"])
                 prog.append(c)
             yield (prog, None, rng.getrandbits(30), rng.choice([0, 4, 8, 16]))
+        # still nothing: one targeted preemption at every line of the modelled functions whose source changed
+        from evh.common import changed_lines
+
+        lines = changed_lines(ck.build_info)
+        ck.cov["targeted_lines"] = len(lines)
+        progs = [
+            [{"kind": "produce", "tag": "t0", "items": [0, 1, 2], "consume": "callback_mid"}],
+            [{"kind": "produce", "tag": "t0", "items": [0, 1], "consume": "two_receivers"}],
+            [{"kind": "subchannel", "tag": "t0", "items": [0], "items2": [1]}, {"kind": "subchannel", "tag": "t1", "items": [2], "items2": [3]}],
+            [{"kind": "produce", "tag": "t0", "items": [0], "consume": "callback_late"}, {"kind": "consume", "tag": "t1", "items": [1, 2]}],
+        ]
+        for where in lines:
+            for prog in progs:
+                if ck.failures:
+                    return
+                for nth in (1, 2):
+                    yield (prog, ("demote", where, nth), rng.getrandbits(30), 10 ** 6)
 
     for prog, schedule, sd, lb in more_runs():
         r = random.Random(sd)
-        chooser = S.ReplayChooser(schedule) if schedule is not None else (S.RandomChooser(r, line_p=0.2) if sd % 3 else S.PCTChooser(r, r.choice([2, 3, 5]), 400))
+        if isinstance(schedule, tuple) and schedule and schedule[0] == "demote":
+            chooser = S.DemoteAtLine(schedule[1], schedule[2], r)
+            ck.count("targeted_runs")
+        else:
+            chooser = S.ReplayChooser(schedule) if schedule is not None else (S.RandomChooser(r, line_p=0.2) if sd % 3 else S.PCTChooser(r, r.choice([2, 3, 5]), 400))
         out = run_program(prog, chooser, sd, line_budget=lb)
         nruns += 1
         exb = {"prog": prog, "schedule": out["schedule"], "seed": sd, "line_budget": lb, "result": out["result"]}
